@@ -131,6 +131,25 @@ def _trim(case, limit=2500):
     return {'_truncated_case_json': s[:limit] + '...', '_len': len(s)}
 
 
+def call_oracle(clause, case):
+    try:
+        return clause.oracle(case)
+    except Violation:
+        raise
+    except (KeyboardInterrupt, SystemExit, MemoryError, HarnessError):
+        raise
+    except Exception as e:
+        # an exception escaping from the code under test on an in-domain input is a violation
+        # ("handled or refused cleanly"); one raised by the harness itself is a harness error
+        tb = traceback.extract_tb(e.__traceback__)
+        rt = os.path.abspath(os.environ.get('VERIF_REPO_ROOT', '/repo')) + os.sep
+        fr = [f for f in tb if os.path.abspath(f.filename).startswith(rt)]
+        if not fr or type(e).__module__.startswith('hypothesis'):
+            raise
+        raise Violation('unexpected %s: %s (at %s:%d in %s)' % (type(e).__name__, str(e)[:300],
+                        os.path.relpath(fr[-1].filename, rt), fr[-1].lineno, fr[-1].name)) from None
+
+
 def _run_shard(task):
     """Runs in a forked worker.  Returns a plain dict."""
     (prop, mod_name, cname, shard, n, seed, tier, deadline, known_keys, shrink_cap) = task
@@ -154,7 +173,7 @@ def _run_shard(task):
                 return
             res['evaluations'] += 1
             try:
-                labels = clause.oracle(case)
+                labels = call_oracle(clause, case)
             except Violation as v:
                 if v.key is not None and v.key in known_keys:
                     res['known'][v.key] = res['known'].get(v.key, 0) + 1
@@ -371,7 +390,7 @@ def replay(prop, mod_name, path):
     clause = [c for c in mod.CLAUSES if c.name == rec['clause']][0]
     known_open, _ = load_known(prop)
     try:
-        labels = clause.oracle(rec['case'])
+        labels = call_oracle(clause, rec['case'])
     except Violation as v:
         if v.key is not None and v.key in known_open:
             print('KNOWN-FINDING: property=%s %s [key=%s]' % (prop, known_open[v.key], v.key))
